@@ -1,0 +1,29 @@
+//go:build verif
+
+// Robustness-check accessors: what the internal link does with a packet that the receiver
+// could not attribute to a packet processor (computeProcID says "not SCION"), i.e. the STUN
+// path. Add-only; nothing here changes behaviour.
+
+package udpip
+
+import (
+	"github.com/scionproto/scion/router"
+)
+
+// VerifComputeProcID exposes computeProcID.
+func VerifComputeProcID(data []byte, numProcRoutines int, hashSeed uint32) (uint32, bool) {
+	return computeProcID(data, numProcRoutines, hashSeed)
+}
+
+// VerifInternalLinkProcess runs internalLink.processPacket on pkt (as internalLink.runProcessor
+// does for packets that internalLink.receive queued on the link's own queue). It returns the
+// error of processPacket and whether the packet would be sent back (Link still set).
+func VerifInternalLinkProcess(pkt *router.Packet) (send bool, err error) {
+	l := &internalLink{}
+	pkt.Link = l
+	err = l.processPacket(pkt)
+	if err != nil {
+		return false, err
+	}
+	return pkt.Link != nil, nil
+}
